@@ -2063,6 +2063,12 @@ def c15_twin(a, b):
         return [re.sub(r" @\d+$", "", e) for st in run.steps for e in st.events
                 if e.startswith(("ret ", "msg ")) and not re.match(r"ret (poll|drive) ok none", e)]
     ra, rb = results(a), results(b)
+    # twins that also drop an operation (write-side timed twins with `cancel`): whether the dropped
+    # operation had already returned depends on how much the transport accepted before the drop, so
+    # only delivered messages and errors are comparable there
+    if any(e == "cancel" for r in (a, b) for st in r.steps for e in st.events):
+        ra = [e for e in ra if e.startswith("msg ") or " err " in e]
+        rb = [e for e in rb if e.startswith("msg ") or " err " in e]
     if ra != rb:
         out.append(V("C15", "results-differ", f"{ra} vs {rb}"))
     return out
